@@ -413,7 +413,7 @@ def run(ck, facts):
     sub3 = C.SubCheck(ck, "R6", "", ["R5"], key_re=r"Callback|c_delete")
     c03.run(sub3, facts)
     import c09
-    sub4 = C.SubCheck(ck, "R6", "", ["R3", "R7"], key_re=r"^cpp/(include-guard|header-path-siblings)|^cpp::path_diff|own-declaration-first")
+    sub4 = C.SubCheck(ck, "R6", "", ["R3", "R7", "R4", "R5"], key_re=r"^cpp/(include-guard|header-path-siblings)|^cpp::path_diff|own-declaration-first|^fmt_identifier/(tables|C\+\+-keywords|escape-form)|^cpp::special-members/|^c::gen_result_ty/")
     c09.run(sub4, facts)
     # the predicate behind the generated UTF-8 validation accepts exactly well-formed UTF-8 (C16.R3 on diplomat_is_str)
     import c16
